@@ -448,7 +448,7 @@ class Harness:
         return f
 
     # ------------------------------------------------------------------ one run
-    def run(self, *, n_chain, n_warm, n_main, trace_warm_up, adapters, traced, stager=None, inject_at=None, monitor=False, display_progress=False, n_process=1, assignment=None, worker_order=None, force_memmap=False, stats2=False, rng_kind="jumped"):
+    def run(self, *, n_chain, n_warm, n_main, trace_warm_up, adapters, traced, stager=None, inject_at=None, monitor=False, display_progress=False, n_process=1, assignment=None, worker_order=None, force_memmap=False, stats2=False, rng_kind="jumped", init_as="state"):
         """adapters: None | 'fast' | 'fast+slow';  stager: None | 'windowed' (small windows) | 'warmup'"""
         self.rec = rec = Recorder()
         rec.inject_at = inject_at
@@ -484,7 +484,11 @@ class Harness:
         except PyRaise as e:
             # the stager rejects these settings loudly: the scenario does not exist for this tree
             return {"skipped": f"stager settings rejected ({e.exc_name})", "raised": None, "result": None, "events": [], "n_events": 0, "tick_log": [], "rngs": [], "memmaps": [], "injected": False}
-        init_states = [it.call(self.ChainState, [], {"label": f"c{c}", "chain": c}) for c in range(n_chain)]
+        if init_as == "dict":
+            # initial states given as dictionaries of variables (converted by the sampler)
+            init_states = [{"label": f"c{c}", "chain": c} for c in range(n_chain)]
+        else:
+            init_states = [it.call(self.ChainState, [], {"label": f"c{c}", "chain": c}) for c in range(n_chain)]
         return self._run2(locals())
 
     def _make_stager(self, stager):
@@ -578,7 +582,7 @@ def _n_iter_of(label: str) -> int:
 
 
 def describe(params) -> str:
-    keys = ("n_chain", "n_warm", "n_main", "trace_warm_up", "adapters", "traced", "stager", "monitor", "display_progress", "n_process", "assignment", "worker_order", "force_memmap", "stats2", "rng_kind")
+    keys = ("n_chain", "n_warm", "n_main", "trace_warm_up", "adapters", "traced", "stager", "monitor", "display_progress", "n_process", "assignment", "worker_order", "force_memmap", "stats2", "rng_kind", "init_as")
     return ", ".join(f"{k}={params[k]}" for k in keys if k in params and params[k] not in (None, False) or k in ("n_chain", "n_warm", "n_main"))
 
 
@@ -938,6 +942,10 @@ SCENARIOS_QUICK = [
 ]
 
 SCENARIOS_QUICK += [
+    dict(n_chain=2, n_warm=nw, n_main=2, trace_warm_up=True, adapters="fast", traced=True, stager=None, init_as="dict", n_process=npr, assignment={0: 1, 1: 0} if npr > 1 else None)
+    for nw in (0, 2)
+    for npr in (1, 2)
+] + [
     dict(n_chain=nc, n_warm=1, n_main=1, trace_warm_up=False, adapters=None, traced=False, stager=None, rng_kind=rk)
     for nc in (1, 2, 3)
     for rk in ("spawn", "legacy-attr")
